@@ -166,8 +166,72 @@ func (fc *FnCtx) Generate() (err error) {
 		fc.block(b)
 	}
 	fc.reach = "true"
+	// read frames (`noreads`): decided by a static walk over the SSA of the function and of everything it calls
+	if fc.contract != nil {
+		for _, nr := range fc.contract.NoReads {
+			forbid := map[string]bool{}
+			for _, k := range nr.Keys {
+				forbid[k] = true
+			}
+			where := fc.w.forbiddenRead(fc.fn, forbid, nr.Except, map[*ssa.Function]bool{})
+			goal := Term("(= 0 0)")
+			text := "noreads " + nr.Text + " (static read-set walk over the SSA of the function and its callees)"
+			if where != "" {
+				goal = "(= 0 1)"
+				text += ": " + where
+			}
+			fc.curInstr = nil
+			tags := append([]string{"C02"}, nr.Tags...)
+			fc.obligeNoAssumeRaw("reads", goal, text, tags, nr.Label)
+		}
+	}
 	fc.canary("returns", not(or(fc.returnReach...)), "some return of "+fc.key+" is reachable under the assumptions")
 	return nil
+}
+
+// forbiddenRead returns a description of the first load of a forbidden heap key in fn or in a function it (transitively,
+// statically) calls, skipping the excepted functions; "" when there is none. Anonymous functions created in a body are walked
+// with it. Calls through interfaces and function values cannot be resolved here: their targets are user callbacks or trusted
+// library code, assumed not to touch the unexported fields concerned (recorded in the clause text of the contract).
+func (w *World) forbiddenRead(fn *ssa.Function, forbid, except map[string]bool, seen map[*ssa.Function]bool) string {
+	if fn == nil || seen[fn] || fn.Blocks == nil {
+		return ""
+	}
+	seen[fn] = true
+	for _, b := range fn.Blocks {
+		for _, in := range b.Instrs {
+			switch x := in.(type) {
+			case *ssa.UnOp:
+				if x.Op == token.MUL {
+					ks := map[string]bool{}
+					w.keysOfStoreAddr(x.X, ks)
+					for k := range ks {
+						if forbid[k] {
+							pos := w.fset.Position(x.Pos())
+							return fmt.Sprintf("%s loads %s at %s:%d", shortFuncKey(fn), k, shortFile(pos.Filename), pos.Line)
+						}
+					}
+				}
+			case *ssa.MakeClosure:
+				if f, ok := x.Fn.(*ssa.Function); ok {
+					if r := w.forbiddenRead(f, forbid, except, seen); r != "" {
+						return r
+					}
+				}
+			case ssa.CallInstruction:
+				c := x.Common()
+				if callee := c.StaticCallee(); callee != nil {
+					if except[shortFuncKey(callee)] {
+						continue
+					}
+					if r := w.forbiddenRead(callee, forbid, except, seen); r != "" {
+						return shortFuncKey(fn) + " -> " + r
+					}
+				}
+			}
+		}
+	}
+	return ""
 }
 
 // canary records a goal that must NOT be provable (vacuity guard). It is never assumed.
@@ -693,19 +757,7 @@ func (fc *FnCtx) backEdge(li *loopInfo, st *State, cond Term) {
 	if fc.curInstr != nil {
 		from = fc.curInstr.Block()
 	}
-	for _, inv := range fc.allInvariants(li) {
-		if fc.dropped[inv] {
-			continue
-		}
-		t, err := env.EvalBool(inv.Expr)
-		if err != nil {
-			fc.dropped[inv] = true
-			continue
-		}
-		tags := append([]string{"C02"}, inv.Tags...)
-		fc.obligeSplit(from, "inv-pres", t, fmt.Sprintf("loop %d invariant preserved: %s", li.ordinal, inv.Text), tags, inv.Label)
-	}
-	// step clauses: relation between the state at the head of this iteration (prev) and the state at its back edge
+	// step clauses: proved before the invariants (which may then use them as lemmas): relation between the state at the head of this iteration (prev) and the state at its back edge
 	if li.lc != nil && len(li.lc.Steps) > 0 && li.headState != nil {
 		env.prevEnv = fc.loopEnv(li.headState, li)
 		for _, sc := range li.lc.Steps {
@@ -722,6 +774,18 @@ func (fc *FnCtx) backEdge(li *loopInfo, st *State, cond Term) {
 			fc.obligeSplit(from, "step", t, fmt.Sprintf("loop %d step: %s", li.ordinal, sc.Text), tags, sc.Label)
 		}
 		env.prevEnv = nil
+	}
+	for _, inv := range fc.allInvariants(li) {
+		if fc.dropped[inv] {
+			continue
+		}
+		t, err := env.EvalBool(inv.Expr)
+		if err != nil {
+			fc.dropped[inv] = true
+			continue
+		}
+		tags := append([]string{"C02"}, inv.Tags...)
+		fc.obligeSplit(from, "inv-pres", t, fmt.Sprintf("loop %d invariant preserved: %s", li.ordinal, inv.Text), tags, inv.Label)
 	}
 	// termination
 	ves := fc.variantExprs(li)
